@@ -371,6 +371,8 @@ type hostStruct struct {
 }
 
 type hostNamed []string
+type hostNamedMap map[string]int32
+type hostNamedArr [3]uint16
 
 var edfOnce sync.Once
 
@@ -378,30 +380,35 @@ func edfCorpus() map[string]any {
 	edfOnce.Do(func() {
 		edf.RegisterTypeOf(hostStruct{})
 		edf.RegisterTypeOf(hostNamed{})
+		edf.RegisterTypeOf(hostNamedMap{})
+		edf.RegisterTypeOf(hostNamedArr{})
 	})
 	return map[string]any{
-		"int":    int64(-123456789),
-		"string": "hello, world: " + string(make([]byte, 40)),
-		"binary": []byte{1, 2, 3, 4, 5, 6, 7, 8, 9, 10, 11, 12},
-		"atom":   gen.Atom("some_atom"),
-		"float":  3.14159,
-		"pid":    gen.PID{Node: "n@h", ID: 1234, Creation: 99},
-		"ref":    gen.Ref{Node: "n@h", Creation: 7, ID: [3]uint64{1, 2, 3}},
-		"alias":  gen.Alias{Node: "n@h", Creation: 7, ID: [3]uint64{4, 5, 6}},
-		"slice":  []int32{1, 2, 3, 4, 5},
-		"slice2": [][]string{{"a", "b"}, {}, {"c"}},
-		"map":    map[string]int16{"x": 1, "y": 2, "z": 3},
-		"mapany": map[any]any{"k": int8(1), int16(2): []any{"v", nil, 2.5}},
-		"anys":   []any{int64(1), "two", []byte{3}, gen.Atom("four"), nil, true},
-		"struct": hostStruct{A: 5, B: "bee", C: []uint16{1, 2}, D: map[string]float64{"pi": 3.14}, E: gen.PID{Node: "n@h", ID: 5}, F: []any{"x", int8(3)}},
-		"named":  hostNamed{"p", "q", "r"},
-		"error":  errors.New("some failure"),
-		"time":   time.Unix(1700000000, 123),
-		"array":  [4]uint32{9, 8, 7, 6},
-		"array2": [3][5]uint8{{1, 2, 3, 4, 5}, {6, 7, 8, 9, 10}, {11, 12, 13, 14, 15}},
-		"array3": [][2][2]uint16{{{1, 2}, {3, 4}}, {{5, 6}, {7, 8}}},
-		"nested": map[string][]map[int8]string{"a": {{1: "x"}, {}}, "b": nil},
-		"bool":   true,
+		"int":      int64(-123456789),
+		"string":   "hello, world: " + string(make([]byte, 40)),
+		"binary":   []byte{1, 2, 3, 4, 5, 6, 7, 8, 9, 10, 11, 12},
+		"atom":     gen.Atom("some_atom"),
+		"float":    3.14159,
+		"pid":      gen.PID{Node: "n@h", ID: 1234, Creation: 99},
+		"ref":      gen.Ref{Node: "n@h", Creation: 7, ID: [3]uint64{1, 2, 3}},
+		"alias":    gen.Alias{Node: "n@h", Creation: 7, ID: [3]uint64{4, 5, 6}},
+		"slice":    []int32{1, 2, 3, 4, 5},
+		"slice2":   [][]string{{"a", "b"}, {}, {"c"}},
+		"map":      map[string]int16{"x": 1, "y": 2, "z": 3},
+		"mapany":   map[any]any{"k": int8(1), int16(2): []any{"v", nil, 2.5}},
+		"anys":     []any{int64(1), "two", []byte{3}, gen.Atom("four"), nil, true},
+		"struct":   hostStruct{A: 5, B: "bee", C: []uint16{1, 2}, D: map[string]float64{"pi": 3.14}, E: gen.PID{Node: "n@h", ID: 5}, F: []any{"x", int8(3)}},
+		"named":    hostNamed{"p", "q", "r"},
+		"namedmap": hostNamedMap{"one": 1, "two": 2},
+		"namedarr": hostNamedArr{7, 8, 9},
+		"anynamed": []any{hostNamedMap{"k": 5}, hostNamed{"s"}, hostNamedArr{1, 2, 3}},
+		"error":    errors.New("some failure"),
+		"time":     time.Unix(1700000000, 123),
+		"array":    [4]uint32{9, 8, 7, 6},
+		"array2":   [3][5]uint8{{1, 2, 3, 4, 5}, {6, 7, 8, 9, 10}, {11, 12, 13, 14, 15}},
+		"array3":   [][2][2]uint16{{{1, 2}, {3, 4}}, {{5, 6}, {7, 8}}},
+		"nested":   map[string][]map[int8]string{"a": {{1: "x"}, {}}, "b": nil},
+		"bool":     true,
 	}
 }
 
